@@ -351,7 +351,8 @@ fn cmd_run(a: &Args) -> i32 {
     };
     let thorough = a.opts.get("tier").map(|s| s == "thorough").unwrap_or(false);
     let master: u64 = a.opts.get("seed").and_then(|s| s.parse().ok()).unwrap_or(1);
-    let runs: u64 = a.opts.get("runs").and_then(|s| s.parse().ok()).unwrap_or_else(|| default_runs(p, thorough));
+    let scale: f64 = a.opts.get("scale").and_then(|s| s.parse().ok()).unwrap_or(1.0);
+    let runs: u64 = a.opts.get("runs").and_then(|s| s.parse().ok()).unwrap_or_else(|| ((default_runs(p, thorough) as f64) * scale).max(1.0) as u64);
     let workers: usize = a.opts.get("workers").and_then(|s| s.parse().ok()).unwrap_or(16);
     let evidence = a.opts.get("evidence").cloned().unwrap_or_else(|| format!("/verif/evidence/{}.json", p.name()));
     let replay_dir = a.opts.get("replay-dir").cloned().unwrap_or_else(|| format!("/verif/replays/{}", p.name()));
@@ -474,11 +475,12 @@ fn cmd_run(a: &Args) -> i32 {
             "rare_probes": probes,
             "coverage_cells": { "hit": cells.len(), "cells": cells },
             "exhaustive": false,
+            "model_anchors": refhpke::optional_anchors().into_iter().map(|(n, ok)| format!("{}: {}", n, if ok { "reproduced by refhpke" } else { "not reproduced (discarded)" })).collect::<Vec<_>>(),
             "components": {
                 "real": ["hpke crate from /repo working tree (cfg hpke_verif hooks on, overflow-checks + debug-assertions on)", "RustCrypto aes-gcm, chacha20poly1305, hkdf, hmac, sha2, x25519-dalek, p256/p384/p521 as pinned by Cargo.lock"],
                 "wrapped": ["AEAD primitive in shimmed sessions (same AEAD_ID, forwards to the real cipher, logs nonces, can inject failure)"],
                 "simulated": ["wire and adversary", "key directory", "caller RNG (scripted)", "scheduler", "logical-clock jumps", "context lifecycle (teardown / restart)"],
-                "models": ["ideal channel", "refhpke (independent RFC 9180 implementation, anchored on RFC 9180 A.1.1)", "big-integer curve oracle", "X25519 small-order list"]
+                "models": ["ideal channel", "refhpke (independent RFC 9180 implementation, anchored on RFC 9180 A.1.1 mandatory; A.1.2 PSK and A.3.1 P-256 vectors reproduced)", "big-integer curve oracle", "X25519 small-order list"]
             }
         }
     });
